@@ -90,6 +90,14 @@ CORPUS = [
     ["db 1", "rule 0 sig=0 obs=1", "rule 1 sig=0 obs=1", "rule 6 sig=0 obs=0 req=0 follow=1", "rule 7 sig=0 obs=0 req=6", "set 0 1", "set 1 1", "build 7", "set 1 2", "build 7", "build 7 #null",
      "set 0 2", "build 7", "restart", "build 7 #null"],
 ]
+# the three request kinds CALLED in every order: after a scan has cleaned the single-use entry the remaining entries must keep their own
+# flags - a must-follow entry that turns into a value edge re-runs its rule with InputRebuilt(<order-only key>), which no reason permits;
+# key 1 is the order-only input and is the only thing that changes before the third build
+for _ord in ("rsf", "rfs", "srf", "sfr", "frs", "fsr"):
+    for _db in (0, 1):
+        CORPUS.append(["db %d" % _db, "rule 0 sig=0 obs=1", "rule 1 sig=0 obs=1", "rule 2 sig=0 obs=1", "rule 4 sig=0 obs=0 req=2 single=0 follow=1 ord=%s" % _ord,
+                       "rule 5 sig=0 obs=0 req=4", "set 0 1", "set 1 1", "set 2 1", "build 5", "build 5 #null", "set 1 2", "build 5", "set 1 3"] +
+                      (["restart"] if _db else []) + ["build 5", "build 5 #null", "set 2 2", "build 5", "set 0 5", "build 5"])
 
 
 def cancel_family(chk, sess, n):
